@@ -755,6 +755,10 @@ impl GRLQueryExecutor {
         let all_missing = Vec::new();
         let combined_stats = QueryStats::default();
 
+        // The conjunction is one query: what an earlier sub-goal derived is kept
+        // only if every sub-goal is provable, so all of them run inside one undo frame.
+        facts.begin_undo_frame();
+
         for sub_goal in sub_goals.iter() {
             // Handle != by using expression parser directly
             let goal_satisfied = if sub_goal.contains("!=") {
@@ -767,8 +771,13 @@ impl GRLQueryExecutor {
                 }
             } else {
                 // Normal == comparison, use backward chaining
-                let result = bc_engine.query(sub_goal, facts)?;
-                result.provable
+                match bc_engine.query(sub_goal, facts) {
+                    Ok(result) => result.provable,
+                    Err(e) => {
+                        facts.rollback_undo_frame();
+                        return Err(e);
+                    }
+                }
             };
 
             if !goal_satisfied {
@@ -777,6 +786,13 @@ impl GRLQueryExecutor {
 
             // Note: For compound goals with !=, we don't track missing facts well yet
             // This is a simplification for now
+        }
+
+        if all_provable {
+            facts.commit_undo_frame();
+        } else {
+            // Not provable as a whole: undo what the provable sub-goals derived
+            facts.rollback_undo_frame();
         }
 
         Ok(QueryResult {
